@@ -691,6 +691,20 @@ def main():
     recoverlib.run(tier, V, PROP, coverage)
     # snapshot-heavy instance, every Save ending with a segment cut (files are chosen by name when the log is opened at a snapshot)
     recoverlib.run_snaps(tier, V, PROP, coverage)
+    # the syncs the crash model assumes, observed: a WAL workload under strace; at the return of every call that must be durable
+    # (and of every call that cut the segment) no WAL file may hold bytes newer than its last fdatasync (lib/walsync.py)
+    import walsync
+    sp, sstats = walsync.run(binary)
+    coverage["observed_syncs"] = sstats
+    if sp is None:
+        print("NOTE: sync probe inconclusive (%s)" % sstats.get("inconclusive"), flush=True)
+    seen_sp = set()
+    for pr in sp or []:
+        kk = (pr["call"].split(" ")[0], tuple(pr["files"]))
+        if kk in seen_sp or len(seen_sp) >= 3:
+            continue
+        seen_sp.add(kk)
+        V.report({"branch": "wal.sync", "kind": pr["kind"], "detail": pr["call"].split(" ")[0]}, pr, what="system-call trace of a WAL workload: %s" % pr["detail"])
     # the real Ready loop (raftexample/raft.go serveChannels) against the same model: a follower installs the leader's snapshot
     # and dies inside that Ready cycle. (1) it must be able to start again; (2) its event trace shows in which order it made
     # the snapshot and the hard state durable - if that is not the specified order, Recover.tla is instantiated with the
